@@ -2,16 +2,17 @@ SPECIFICATION Spec
 CONSTANTS
   BufLen = 10
   WaitPct = 20
-  MaxPkts = 4
+  MaxPkts = 3
   MaxErrs = 1
-  MaxSpur = 1
+  MaxSpur = 0
   PktLens <- Len1
   TimeoutSignals = TRUE
   SkipOnErr = TRUE
   ReportRetry = TRUE
   AllowClose = TRUE
-  AllowRecon = TRUE
+  AllowRecon = FALSE
   RecordHist = FALSE
+  MaxHist = 0
 VIEW View
 INVARIANTS InOrderModuloSkip SkipBound BufferAccounting DropOnlyWhenFull DropsCounted ReportsConserved NoReportLost NoStuck TimerSane ConnSane
 CHECK_DEADLOCK FALSE
